@@ -324,6 +324,11 @@ func genFuShapes(r *Rand, tier string, emit func(string)) {
 		{"any", "<chan:int>nil"}, {"any", "<func>nil"}, {"any", "<complex128>c:00000000000000000000000000000000"}, {"any", "<uintptr>1"}, {"any", "<map[int]int>{1=1}"},
 		{"any", "<[]chan:int>nil"}, {"any", "<struct{A:chan:int}>(nil)"}, {"[]any", "[<int>1,<func>nil]"}, {"map[string]any", "{s:61=<complex64>c:0000000000000000}"},
 		{"struct{A:any}", "(<[2]chan:int>[nil,nil])"}, {"@NArr", "[1,2]"}, {"struct{A:@NArr}", "([1,2])"},
+		// inlining two and three levels deep, no inlined struct at offset 0, fields after each inlined struct
+		{"struct{ID:int64;Count:int8;Mid:struct{Port:uint16;Geo:struct{Lat:int64;Lon:int32`lon`}`,inline`;Tail:string`tail`}`,inline`;Last:bool}", "(1,2,(3,(4,5),s:74),true)"},
+		{"struct{A:int8;M:struct{B:int16;N:struct{C:int32;O:struct{D:int64;E:string}`,squash`;F:bool}`,inline`;G:uint8}`,inline`;H:float64}", "(1,(2,(3,(4,s:65),true),6),f:401c000000000000)"},
+		{"struct{A:string;M:struct{B:string;N:*struct{C:string;D:int}`,inline`}`,inline`;Z:int}", "(s:61,(s:62,&(s:63,4)),5)"},
+		{"[]struct{A:int8;M:struct{B:int16;N:struct{C:int32}`,inline`}`,inline`}", "[(1,(2,(3))),(4,(5,(6)))]"},
 	} {
 		fuAll(emit, c[0], c[1])
 	}
